@@ -569,3 +569,64 @@ void parsec_debug_history_fini(void) {
 }
 
 #endif /* defined(PARSEC_DEBUG_HISTORY) */
+
+#if defined(PARSEC_VERIF)
+/* Verification hooks (see parsec/verif_hooks.h): seeded delay injection and event tap. */
+#include "parsec/verif_hooks.h"
+#include <sched.h>
+#include <time.h>
+#include <stdlib.h>
+
+volatile int      parsec_verif_yield_permille = -1;
+volatile int      parsec_verif_yield_max_us   = 0;
+volatile uint64_t parsec_verif_yield_seed     = 1;
+volatile uint64_t parsec_verif_yield_sites    = ~(uint64_t)0;
+volatile uint64_t parsec_verif_yield_hits[PARSEC_VERIF_SITE_MAX];
+volatile parsec_verif_event_cb_t parsec_verif_event_cb = NULL;
+
+static __thread uint64_t verif_yield_state = 0;
+static volatile int32_t verif_yield_thread_counter = 0;
+
+void parsec_verif_yield_slow(int site)
+{
+    int permille = parsec_verif_yield_permille;
+    if( permille < 0 ) {
+        /* First use: configure from the environment. Concurrent first uses compute the same values. */
+        const char *e = getenv("PARSEC_VERIF_YIELD");
+        unsigned long long seed = 1, mask = ~0ULL;
+        int pm = 0, mus = 0;
+        if( NULL != e ) {
+            int n = sscanf(e, "%llu:%d:%d:%llx", &seed, &pm, &mus, &mask);
+            if( n < 2 ) pm = 0;
+            if( n < 3 ) mus = 0;
+            if( n < 4 ) mask = ~0ULL;
+        }
+        parsec_verif_yield_seed   = (uint64_t)seed;
+        parsec_verif_yield_max_us = mus;
+        parsec_verif_yield_sites  = (uint64_t)mask;
+        parsec_verif_yield_permille = permille = (pm < 0 ? 0 : pm);
+        if( 0 == permille ) return;
+    }
+    if( site < 0 || site >= PARSEC_VERIF_SITE_MAX ) return;
+    if( !(parsec_verif_yield_sites & ((uint64_t)1 << site)) ) return;
+    uint64_t x = verif_yield_state;
+    if( 0 == x ) {
+        int32_t me = __sync_add_and_fetch(&verif_yield_thread_counter, 1);
+        x = (parsec_verif_yield_seed + 1) * 0x9E3779B97F4A7C15ULL + (uint64_t)me * 0xBF58476D1CE4E5B9ULL;
+        if( 0 == x ) x = 88172645463325252ULL;
+    }
+    x ^= x << 13; x ^= x >> 7; x ^= x << 17;
+    verif_yield_state = x;
+    if( (int)((x >> 11) % 1000) >= permille ) return;
+    __sync_fetch_and_add(&parsec_verif_yield_hits[site], 1);
+    int mus = parsec_verif_yield_max_us;
+    if( mus > 0 && ((x >> 40) & 3) == 0 ) {
+        struct timespec ts;
+        ts.tv_sec = 0;
+        ts.tv_nsec = (long)(((x >> 21) % (uint64_t)mus) + 1) * 1000L;
+        nanosleep(&ts, NULL);
+    } else {
+        sched_yield();
+    }
+}
+#endif /* defined(PARSEC_VERIF) */
